@@ -54,6 +54,7 @@ func (tx *ATTx) Rollback() error {
 
 // rollbackLocal ends the local transaction after a failed phase one
 func (tx *ATTx) rollbackLocal() {
+	defer tx.tx.restoreAutoCommit()
 	if rerr := tx.tx.target.Rollback(); rerr != nil {
 		log.Errorf("rollback local transaction after failed phase one: %v", rerr)
 	}
